@@ -98,7 +98,41 @@ def closure_is_checked_sub(grid, f, defs, t):
             if a0 == (2, ()) and a1 is not None and a1[0] == 1:
                 ok = True
     arith = [st for blk in cf.blocks for st in blk[0] if st[0] == "=" and st[2][0] == "bin"]
-    return (ok and not arith), cf, captured
+    if ok and not arith:
+        return True, cf, captured
+    # another spelling (`if current < amount { None } else { Some(current - amount) }`): decide by evaluating the closure
+    return closure_evaluates_to_checked_sub(grid, cf), cf, captured
+
+
+_PROG = [None]
+
+
+def closure_evaluates_to_checked_sub(grid, cf):
+    """the closure, evaluated from MIR for pairs (current, amount) around the boundary, returns Some(current - amount) when it fits
+    and None otherwise"""
+    from .. import absint
+    if len(cf.captures) != 1:
+        return False
+    by_ref = str(cf.captures[0][2]) != "value" and "Value" not in str(cf.captures[0][2])
+    for cur, amt in ((10, 3), (3, 3), (2, 3), (0, 0), (0, 1), (1 << 40, (1 << 40) + 1), ((1 << 64) - 1, 1), (5, (1 << 64) - 1)):
+        if _PROG[0] is None:
+            return False
+        ev = absint.Evaluator(_PROG[0])
+        try:
+            holder = absint.Frame(cf)
+            ev.frames[holder.id] = holder
+            holder.env[10 ** 6] = amt
+            cap = absint.Ref(("local", holder.id, 10 ** 6)) if by_ref else amt
+            cl = absint.Struct([cap])
+            cl.closure = cf.path
+            r = ev._call_closure(cl, [cur])
+        except (absint.Unsupported, KeyError, IndexError, TypeError):
+            return False
+        want = cur - amt if cur >= amt else None
+        got = (r.fields[0] if r.name == "Some" else None) if isinstance(r, absint.Enum) and r.name in ("Some", "None") else "?"
+        if got != want:
+            return False
+    return True
 
 
 def rule_tracker(ctx):
@@ -109,6 +143,7 @@ def rule_tracker(ctx):
                   "subtracted; its `bytes` field is written nowhere but in drop, and drop adds exactly that amount back.  Matched by "
                   "operation, not by function name: extracting the decrement into a helper is silent")
     prog = ctx.prog
+    _PROG[0] = prog
     grid = prog.crate("jxl_grid")
     if INNER not in grid.adts or HANDLE not in grid.adts:
         ctx.anchor_missing(rid, INNER)
